@@ -15,19 +15,19 @@ import (
 
 // DemuxCfg is one demuxer configuration.
 type DemuxCfg struct {
-	PacketSize int    // 0 = auto-detect
-	Reader     string // "seek" (bytes.Reader like), "bufio", "plain"
-	BufioSize  int
-	Chunk      func(pos int) int
-	HasFail    bool
-	FailAt     int // reader fault offset (when HasFail)
-	FailOnce   bool
-	API        string // "data", "packet", "alt"
-	Skipper    astits.PacketSkipper
-	Parser     astits.PacketsParser
-	MaxCalls   int
+	PacketSize    int    // 0 = auto-detect
+	Reader        string // "seek" (bytes.Reader like), "bufio", "plain"
+	BufioSize     int
+	Chunk         func(pos int) int
+	HasFail       bool
+	FailAt        int // reader fault offset (when HasFail)
+	FailOnce      bool
+	API           string // "data", "packet", "alt"
+	Skipper       astits.PacketSkipper
+	Parser        astits.PacketsParser
+	MaxCalls      int
 	ExtraAfterEOF int
-	KeepReads  bool
+	KeepReads     bool
 }
 
 func (c DemuxCfg) String() string {
